@@ -461,8 +461,12 @@ pub fn generate(kind: &str, tier: &str, seed: u64, shard: u64, nshards: u64, pat
                     cases += 2;
                 }
                 // every unsupported marker at every kind of value position, followed by plenty of well-formed bytes
-                for m in UNSUPPORTED.iter() {
-                    let tail: Vec<u8> = { let mut x = vec![0u8; 24]; x.extend_from_slice(&[0, 1, b'z', 5, 0, 0, 9]); x };
+                for (mi, m) in UNSUPPORTED.iter().enumerate() {
+                  // k filler bytes, then a well-formed continuation: a decoder that "skips" the payload of a marker it does not
+                  // support (k = its idea of the payload length) would carry on as if nothing had happened
+                  for &k in [0usize, 1, 2, 3, 4, 5, 8, 9, 10, 12, 16, 24].iter() {
+                    if k != 24 && k != 10 && (mi + k) % 3 != 0 { continue; }
+                    let tail: Vec<u8> = { let mut x = vec![0u8; k]; x.extend_from_slice(&[0, 1, b'z', 5, 0, 0, 9, 5]); x };
                     let mut cases_b: Vec<Vec<u8>> = Vec::new();
                     cases_b.push({ let mut b = vec![*m]; b.extend(&tail); b });
                     cases_b.push({ let mut b = vec![5, *m]; b.extend(&tail); b });
@@ -475,6 +479,7 @@ pub fn generate(kind: &str, tier: &str, seed: u64, shard: u64, nshards: u64, pat
                         t.emit(&dec_event("bad", b, &[]));
                         cases += 1;
                     }
+                  }
                 }
                 // a conformant encoding LONGER than an RTMP message (the AMF0 codec has no such limit): compared in Rust
                 {
